@@ -167,8 +167,15 @@ def r4(ctx: Ctx) -> None:
     a_ = sums[0]
     asserts = atoms_of(cd, lambda x: x[0] == "assert")
     two_sided = False
+    def unguarded(t):
+        """the assertion without its 'only for fixed modules' part: an assertion under 'if m.is_fixed' is, in the normal form, the
+        implication 'not m.is_fixed or ...'"""
+        if t[0] == "or":
+            rest = [d for d in t[1] if not (d[0] == "not" and d[1][0] == "a" and d[1][2] == "is_fixed")]
+            return rest[0] if len(rest) == 1 else ("or", tuple(rest))
+        return t
     for st in asserts:
-        t = st[1]
+        t = unguarded(st[1])
         if t[0] == "or" and len(t[1]) == 2:
             lows = [d for d in t[1] if d[0] == "lt0" and _small_upper(d, a_)]
             highs = [d for d in t[1] if d[0] == "and" and _near_one(d, a_)]
@@ -178,17 +185,26 @@ def r4(ctx: Ctx) -> None:
     if not two_sided:
         ctx.report(det.where, "detector-two-sided", "the detector does not assert 'ratio < eps or 1 - eps < ratio < 1 + eps' for every cell and fixed module",
                    lineno=det.node.lineno)
-    counts = [st for st in asserts if st[1][0] == "eq0" and contains(st[1], "num_rectangles")]
+    counts = [st for st in asserts if unguarded(st[1])[0] == "eq0" and contains(st[1], "num_rectangles")]
     ctx.site(det.where, "detector asserts that every rectangle of a fixed module owns a cell")
     if len(counts) != 1:
         ctx.report(det.where, "detector-count", "the detector does not assert that the number of owned cells equals the module's number of rectangles",
                    lineno=det.node.lineno)
     # owned cells: marked fixed and recorded under the ratio ~ 1 test
-    ifs = atoms_of(cd, lambda x: x[0] == "if" and x[1][0] == "lt0" and contains(x[1], a_))
+    def claim_test(c_):
+        """the ratio test of a claim: the test itself, or its conjunction with 'the module is fixed'"""
+        if c_[0] == "lt0":
+            return c_
+        if c_[0] == "and":
+            rest = [d for d in c_[1] if not (d[0] == "a" and d[2] == "is_fixed")]
+            if len(rest) == 1 and rest[0][0] == "lt0":
+                return rest[0]
+        return None
+    ifs = atoms_of(cd, lambda x: x[0] == "if" and len(x) == 4 and claim_test(x[1]) is not None and contains(x[1], a_))
     ctx.site(det.where, "a cell is claimed (marked fixed, recorded, counted) iff ratio > 1 - eps")
     ok = False
     for cnd in ifs:
-        p = to_poly(cnd[1][1])
+        p = to_poly(claim_test(cnd[1])[1])
         if p.t.get(((a_, 1),)) == -1 and 0.9 <= float(p.const_value()) < 1 and len(p.t) == 2:
             sets = [x for x in cnd[2] if x[0] == "set" and x[1][0] == "a" and x[1][2] == "fixed" and x[2] == ("k", "bool", True)]
             apps = [x for x in cnd[2] if x[0] == "expr" and contains(x, "append")]
@@ -207,7 +223,17 @@ def r4(ctx: Ctx) -> None:
         # the loop over the list of fixed modules; in the normal form: the loop over all modules whose whole body is 'if m.is_fixed: ...'
         if lp[2] == want_dom:
             return True
-        return lp[2] == ("a", netl, "modules") and len(lp[3]) == 1 and lp[3][0][0] == "if" and lp[3][0][1] == ("a", lp[1], "is_fixed") and lp[3][0][3] == ()
+        if lp[2] != ("a", netl, "modules"):
+            return False
+        fx = ("a", lp[1], "is_fixed")
+        # every statement of the body is about fixed modules only: a conditional on 'm.is_fixed [and ...]', an assertion 'not m.is_fixed or ...'
+        def only_fixed(st):
+            if st[0] == "if" and st[3] == ():
+                return st[1] == fx or (st[1][0] == "and" and fx in st[1][1])
+            if st[0] == "assert":
+                return st[1][0] == "or" and mk_not(fx) in st[1][1]
+            return False
+        return bool(lp[3]) and all(only_fixed(st) for st in lp[3])
     inner = [lp for lp in mod_loops if over_fixed(lp)]
     outer = [lp for lp in atoms_of(cdd, lambda x: x[0] == "for" and len(x) == 5) if lp[2] == ("a", ("self",), "allocations") and contains(lp[3], a_)]
     if len(inner) < 2 or len(inner) != len([lp for lp in mod_loops if lp[2] != ("a", ("self",), "allocations")]) or len(outer) != 1:
